@@ -174,6 +174,7 @@ struct Chars {
                 if (r.first < 0 && z == r.first && r.first == -r.second - 1) cause = "most-negative/";
             }
         }
+        o.region = cause;
         long ow = gb.outside_write();
         if (ow != LONG_MIN) return o.fail(cause + "write-outside-buffer", "byte at offset " + std::to_string(ow) + " relative to first was modified (buffer length " + std::to_string(len) + ")");
         if (!ok) {
@@ -377,6 +378,7 @@ struct CapSweep {
         });
         // the most negative value of a two's complement type is a listed finding of its own (to_chars negates it)
         std::string const cause = (bottom < 0 && z == bottom && bottom == -top - 1) ? "most-negative/" : "";
+        o.region = cause;
         if (ow != LONG_MIN) return o.fail(cause + "capacity-sweep/write-outside-buffer", "offset " + std::to_string(ow));
         if (!ok) {
             o.fclass = cause + "capacity-sweep/" + o.fclass;
